@@ -274,3 +274,16 @@ CLAIMS["C16"] = {
     "note": "Trusted: symgo, z3.",
 }
 H("C16", "html/document", "VxH_C16_layers", reach=["laid-out"], bounds="3 sibling blocks x {static,relative} x {z-index auto,-1,0,1}; the middle one optionally floated, the outer ones optionally translucent", quick={"maxsteps": 80000000, "time": "500s", "shards": 8})
+
+# ---- C02 conservation of content ----
+ASSUMPTIONS["C02"] = [
+    "text-free documents: the content units are unsplittable blocks (custom elements of symbolic height that fit on a page) laid out by the real pipeline on 100px pages; real mode; nil font configuration",
+    "text runs, line breaking (text engines), draw-once at the backend, running/fixed elements and table header repetition are outside the claim",
+]
+CLAIMS["C02"] = {
+    "text": "For symbolic block heights, an optional float and optional avoided breaks, and for a table row that is split over pages, the solver shows every unsplittable block is laid out on exactly one page, in document order: pagination neither loses nor duplicates it.",
+    "design_ref": "DESIGN.md section 4 C02",
+    "note": "Trusted: symgo, z3 nlsat.",
+}
+H("C02", "html/layout", "VxH_C02_blocks", mode="real", reach=["laid-out"], bounds="5 sibling blocks with heights in [10,90] on 100px pages; the second optionally floated; break-after auto/avoid on the third and fourth", quick={"maxsteps": 100000000, "time": "500s", "shards": 8})
+H("C02", "html/layout", "VxH_C02_table_row", mode="real", reach=["laid-out"], bounds="one table row with two cells holding 2 and 4 blocks of heights in [10,60] on 100px pages", quick={"maxsteps": 100000000, "time": "500s", "shards": 8})
